@@ -692,6 +692,21 @@ func orcResolve(op gen.EditOp, st *orcState) (orcCall, bool) {
 				c.Variant += "-shape"
 			case 6, 7, 8, 9, 10, 11:
 				k := gen.EditStyleObj[op.Sel[1]%len(gen.EditStyleObj)]
+				if o := obj(op.Sel[0]); sub <= 8 && v != 9 && o != nil {
+					// half of the time address a style the object already has (the in-place
+					// update path of _set), otherwise any style (the append path)
+					var have []string
+					a := proj.Object(o, proj.Opts{}).Attrs
+					for _, sk := range gen.EditStyleObj {
+						if _, ok := orcGet(a, "style", orcStyleKey(sk)); ok {
+							have = append(have, sk)
+						}
+					}
+					if len(have) > 0 {
+						k = have[op.Sel[1]%len(have)]
+						c.Variant += "-present"
+					}
+				}
 				c.Key, c.Value = base+".style."+k, orcSP(gen.EditStyleValue(rr, k))
 				if sub == 11 {
 					c.Value = orcSP(rr.RandCase(*c.Value))
@@ -740,6 +755,19 @@ func orcResolve(op gen.EditOp, st *orcState) (orcCall, bool) {
 				c.Variant += "-label"
 			case 5, 6, 7, 8, 9, 10:
 				k := gen.EditStyleEdge[op.Sel[1]%len(gen.EditStyleEdge)]
+				if sub <= 7 {
+					var have []string
+					a := proj.EdgeOf(e, proj.Opts{}).Attrs
+					for _, sk := range gen.EditStyleEdge {
+						if _, ok := orcGet(a, "style", orcStyleKey(sk)); ok {
+							have = append(have, sk)
+						}
+					}
+					if len(have) > 0 {
+						k = have[op.Sel[1]%len(have)]
+						c.Variant += "-present"
+					}
+				}
 				c.Key, c.Value = base+".style."+k, orcSP(gen.EditStyleValue(rr, k))
 				c.Variant += "-style"
 			case 11, 12:
